@@ -25,7 +25,7 @@ def sh(cmd, **kw):
 
 
 def main():
-    src, sid, props = sys.argv[1], sys.argv[2], sys.argv[3:]
+    src, sid, props = os.path.abspath(sys.argv[1]), sys.argv[2], sys.argv[3:]
     patch = os.path.join(src, 'patch.diff')
     demo = os.path.join(src, 'demo.cpp')
     extra_flags = '-DASAM_CMP_VERIF' if 'ASAM_CMP_VERIF' in open(demo).read() or 'verifPending' in open(demo).read() else ''
